@@ -5,6 +5,7 @@ pub mod kernels;
 pub mod rng;
 pub mod seams;
 pub mod props {
+    pub mod c02;
     pub mod c06;
     pub mod c07;
     pub mod c08;
@@ -18,5 +19,5 @@ pub mod props {
 use harness::Prop;
 
 pub fn props() -> Vec<&'static Prop> {
-    vec![&props::c06::PROP, &props::c07::PROP, &props::c08::PROP, &props::c09::PROP, &props::c10::PROP, &props::c16::PROP, &props::c17::PROP, &props::c20::PROP]
+    vec![&props::c02::PROP, &props::c06::PROP, &props::c07::PROP, &props::c08::PROP, &props::c09::PROP, &props::c10::PROP, &props::c16::PROP, &props::c17::PROP, &props::c20::PROP]
 }
